@@ -7,11 +7,11 @@ anchored on the recorded .ori), and listing / MAP / share / macro outputs of two
 equal after masking date and time.
 """
 import os, re
-from vf import engine, corpus, run, asl
+from vf import engine, corpus, run, asl, variants
 from vf.gen import composite
 
 ID = "C17"
-RULE = ("case = (golden test or generated Z80 program with IFUSED/IFNUSED/IFDEF, forward references, SET variables, "
+RULE = ("case = (golden test, line-edited variant of one (delete / duplicate / swap / move lines; kept when its reference run is error free) or generated Z80 program with IFUSED/IFNUSED/IFDEF, forward references, SET variables, "
         "macros, sections, listing controls and warnings; subset of report options, placement argv|ASCMD|@key file via ASCMD|@key file in "
         "argv, LANG in {C,de_DE,en_US}, run from another working directory, -o into a sub directory, -q on/off); "
         "fixed cases: every test with a rotating option set so that every option and every pair class occurs, and "
@@ -135,9 +135,13 @@ def strategy_(d, tier):
             chosen.append([o, arg])
     if any(c[0] in LIST_OPTS for c in chosen) and not any(c[0] in ("L", "l", "OLIST") for c in chosen) and d.bool(0.8):
         chosen.append([d.choice(["L", "l"]), None])
-    return dict(test=name, opts=chosen, place=d.weighted([(4, "argv"), (2, "ascmd"), (2, "keyenv"), (2, "keyargv")]),
+    case = dict(test=name, opts=chosen, place=d.weighted([(4, "argv"), (2, "ascmd"), (2, "keyenv"), (2, "keyargv")]),
                 lang=d.weighted([(3, "C"), (1, "de_DE"), (1, "en_US")]), cwd=d.bool(0.25), outdir=d.bool(0.25),
                 quiet=d.bool(0.7))
+    if d.bool(0.45):
+        # a line-edited variant of the golden program (other addresses, distances, statement order)
+        case["var"] = variants.ops_strategy(d)
+    return case
 
 
 def strategy(tier):
@@ -236,6 +240,8 @@ def program_of(case):
     if "gen" in case:
         src = render_gen(case["gen"]).encode("latin-1")
         return dict(name="g" + engine.digest(src)[:8], src=src, ori=None, flags=[], extra={})
+    if case.get("var"):
+        return variants.load(case["test"], case["var"])
     return corpus.load(case["test"])
 
 
@@ -248,7 +254,7 @@ def execute(case):
     nt = nopt >= 2 or (case["place"] != "argv" and nopt) or case["lang"] != "C" or case["cwd"] or case["outdir"]
     key = None
     if nt:
-        key = "|".join([case["test"], ",".join(sorted("%s%s" % (o, a if a is not None else "") for o, a in case["opts"])),
+        key = "|".join([case["test"] + (engine.digest(str(case["var"]))[:6] if case.get("var") else ""), ",".join(sorted("%s%s" % (o, a if a is not None else "") for o, a in case["opts"])),
                         case["place"], case["lang"], str(case["cwd"]), str(case["outdir"]), str(case["quiet"])])
     with run.Work("c17r") as d0:
         ref = dict(case, opts=[], place="argv", lang="C", cwd=False, outdir=False, quiet=True)
@@ -259,6 +265,10 @@ def execute(case):
         classes.append("generated")
         if r0.status != 0 or p0 is None:
             return engine.discarded("generated-program-invalid", classes)
+    if case.get("var"):
+        classes.append("golden-variant")
+        if r0.status != 0 or p0 is None:
+            return engine.discarded("variant-invalid", classes)
     if r0.status != 0 or p0 is None:
         return engine.bad("reference run of %s fails: status %s" % (case["test"], r0.status), key, classes,
                           stderr=r0.err[-500:])
@@ -274,8 +284,8 @@ def execute(case):
     if r1.timed_out or r2.timed_out:
         return engine.inconclusive("timeout", classes)
     detail = dict(argv=argv1, env=env1, status=r1.status, stderr=r1.err[-600:], stdout=r1.out[-300:])
-    if "gen" in case:
-        detail["src"] = t["src"].decode("latin-1")
+    if "gen" in case or case.get("var"):
+        detail["src"] = t["src"].decode("latin-1")[:6000]
     if r1.signal:
         return engine.bad("asl killed by signal %d" % r1.signal, key, classes, **detail)
     if r1.status != 0 or p1 is None:
